@@ -346,8 +346,13 @@ pub fn directed() -> Vec<Trace> {
                     s.push(Step::Call(Op::SetPref("CheckRuleFiles".into(), "None".into())));
                 }
                 for (k, e) in [5usize, pools::expr_brackets(), pools::expr_units(), 8, 12].iter().enumerate() {
-                    let a = (xi + yi + k) % 3;
-                    let b = (a + 1 + k % 2) % 3;
+                    let mut a = (xi + yi + k) % 3;
+                    let mut b = (a + 1 + k % 2) % 3;
+                    if *e == pools::expr_units() {
+                        // speech is the getter that infers units from text (intent rules + the language's definitions)
+                        a = 2;
+                        b = 0;
+                    }
                     s.push(Step::Call(Op::SetMathml(ExprRef::Pool(*e))));
                     s.push(Step::Check { kind: "checkpoint".into(), args: json!({"reset": false, "order": [a], "only": true}) });
                     s.push(Step::Call(Op::SetPref(name.to_string(), y.to_string())));
